@@ -89,7 +89,7 @@ def build(recipe: dict, flags_by_assignment: bool = False):
     and the default value are set on the finished objects instead (what FllImporter and interactive use do).
     A recipe with "shared_objects": True gets ONE operator / defuzzifier instance per distinct description, shared by
     all variables and rule blocks (what Engine.configure-style set-up code and hand-written scripts do)."""
-    global make_norm, make_defuzzifier
+    global make_norm, make_defuzzifier, make_activation
     if recipe.get("via_configure"):
         # operators, activation method and defuzzifier are installed by Engine.configure (by name or as objects)
         how = recipe["via_configure"]
@@ -130,12 +130,12 @@ def build(recipe: dict, flags_by_assignment: bool = False):
                 return cache[key]
             return make
 
-        saved = make_norm, make_defuzzifier
-        make_norm, make_defuzzifier = shared(saved[0]), shared(saved[1])
+        saved = make_norm, make_defuzzifier, make_activation
+        make_norm, make_defuzzifier, make_activation = shared(saved[0]), shared(saved[1]), shared(saved[2])
         try:
             return build({k: v for k, v in recipe.items() if k != "shared_objects"}, flags_by_assignment)
         finally:
-            make_norm, make_defuzzifier = saved
+            make_norm, make_defuzzifier, make_activation = saved
     inputs = [
         fl.InputVariable(
             name=v["name"], description=v.get("description", ""), enabled=v.get("enabled", True), minimum=num(v["min"]),
